@@ -5,6 +5,7 @@
  *   hist   : every history of length <= D over {init_ex(1|2|3), implicit init, fini, create+join, query}
  */
 #include <setjmp.h>
+#include <signal.h>
 #include <dirent.h>
 #include <sys/wait.h>
 #include "myth/myth.h"
@@ -12,10 +13,15 @@
 #include "myth_bind_worker.c"
 
 /* ------------------------------------------------------------------ trap assert() inside the parser */
-static jmp_buf trap; static int trapping; static char trap_msg[200];
+static sigjmp_buf trap; static int trapping; static char trap_msg[200];
 void __assert_fail(const char * e, const char * f, unsigned l, const char * fn) {
-  if (trapping) { snprintf(trap_msg, sizeof trap_msg, "assertion `%s' failed in %s (%s:%u)", e, fn, f, l); longjmp(trap, 1); }
+  if (trapping) { snprintf(trap_msg, sizeof trap_msg, "assertion `%s' failed in %s (%s:%u)", e, fn, f, l); siglongjmp(trap, 1); }
   fprintf(stderr, "assert %s %s:%u\n", e, f, l); _exit(66);
+}
+/* a wild access or division inside the parser is a verdict on that input, not the end of the check */
+static void trap_signal(int sig) {
+  if (trapping) { snprintf(trap_msg, sizeof trap_msg, "signal %d (%s) inside the parser", sig, strsignal(sig)); siglongjmp(trap, 1); }
+  _exit(67);
 }
 
 /* ------------------------------------------------------------------ reference recogniser: range(,range)*, range ::= a | a-b | a-b:c */
@@ -41,7 +47,7 @@ static void parser_one(const char * s) {
   setenv("VERIF_CPU_LIST", s, 1);
   int g = -99;
   trapping = 1;
-  if (setjmp(trap) == 0) g = myth_parse_cpu_list("VERIF_CPU_LIST", got, N_MAX_CPUS);
+  if (sigsetjmp(trap, 1) == 0) g = myth_parse_cpu_list("VERIF_CPU_LIST", got, N_MAX_CPUS);
   else g = -98;
   trapping = 0;
   parser_cases++; SQ.states++; SQ.evaluations++; SQ.transitions += strlen(s) + 1;
@@ -55,6 +61,7 @@ static void parser_one(const char * s) {
   if (g != w || memcmp(got, want, sizeof(int) * (w > 0 ? w : 0))) { if (SQ.nfound < 12) sq_found(key, "", "well-formed list parsed to %d entries, reference says %d", g, w); }
 }
 static void parser_all(int maxlen) {
+  signal(SIGSEGV, trap_signal); signal(SIGBUS, trap_signal); signal(SIGFPE, trap_signal);
   static const char A[] = "019-:, \nx";
   char buf[16]; int idx[16];
   parser_one("");
